@@ -21,7 +21,7 @@ from props import atp_common as A
 from props import c06 as C6
 
 SPECS = ["ATPMC", "ATPTrace"]
-PKGS = ["./cmd/atp"]
+PKGS = ["./cmd/atp", "./cmd/yieldgen"]
 INVS = ["TypeOK", "Transparent", "NoCrossTalk", "WriterAtomic", "Faithful", "NoStuck"]
 NPAYLOADS = 18
 
@@ -176,6 +176,39 @@ def run(ctx):
             continue
         ctx.count(sc["id"])
         sessions.setdefault((sc["cap"], (), ()), []).append((sc["id"], out["events"]))
+    # statement-level yield points (build overlay generated from the current sources): serial echo sessions with
+    # one statement occurrence held until the rest of the system is blocked - a lost result shows as a stuck or
+    # failed Execute on a healthy connection
+    try:
+        ybin, npoints = A.yield_binary(ctx)
+    except common.Infra as e:
+        ybin, npoints = None, 0
+        ctx.extra["yield_points"] = "overlay build failed: %s" % str(e)[:200]
+    if ybin:
+        runs = [dict(id="r%d" % k, beh="ok", echo=k) for k in (1, 2, 3)]
+        ybase = [dict(id="yfree/serial3echo", mode="free", cap=0, frag=False, seed=ctx.seed, runs=runs,
+                      workload=dict(phases=[["r1"], ["r2"], ["r3"]], close="end")),
+                 dict(id="yfree/par2then1", mode="free", cap=1, frag=True, seed=ctx.seed + 1, runs=runs,
+                      workload=dict(phases=[["r1", "r2"], ["r3"]], close="end"))]
+        ydelay = []
+        for sc, rr in zip(ybase, A.run_driver(ctx, ybase, binary=ybin, label="c05y")):
+            out = judge(ctx, sc, rr, "free run (yield overlay)")
+            if out is None:
+                continue
+            seen = {}
+            for key in out.get("gates", []):
+                seen[key] = seen.get(key, 0) + 1
+                if key.startswith("y:client.go"):
+                    ydelay.append(dict(sc, id="ydelay/%s/%s#%d" % (sc["id"][6:], key, seen[key]), mode="delay", delay_key=key, delay_nth=seen[key]))
+        rng.shuffle(ydelay)
+        ydelay = ydelay[: (1500 if thorough else 120)]
+        for sc, rr in zip(ydelay, A.run_driver(ctx, ydelay, binary=ybin, label="c05yd")):
+            out = judge(ctx, sc, rr, "delay " + sc["delay_key"])
+            if out is not None:
+                ctx.count(sc["id"])
+                sessions.setdefault((sc["cap"], (), ()), []).append((sc["id"], out["events"]))
+        ctx.extra["yield_points"] = npoints
+        ctx.extra["yield_delay_scenarios"] = len(ydelay)
     ctx.sample(dict(kind="stress session", id=stress[0]["id"], cap=stress[0]["cap"], runs=stress[0]["runs"][:4], workload=stress[0]["workload"]))
     ctx.extra["payload_catalogue"] = NPAYLOADS
     # ------------------------------------------------------------ trace validation
